@@ -150,6 +150,46 @@ def inferred_types(tier: str) -> List[Tuple[Any, List[str]]]:
     return list(out.values())
 
 
+def collapse_family() -> List[Tuple[Any, List[str]]]:
+    """Unions whose members differ only in a nested position that one rewriter changes, written from the DOCUMENTED
+    rewrites (not computed with the rewriters): Union[W[X], W[X']] with X' = the documented rewrite of X. Rewriting the
+    members makes them equal, so the union collapses to the single container W[X'] - which a rewriter must not then take
+    for a union. W ranges over one and two levels of List / Tuple / Dict value / Optional wrappers."""
+    from typing import Any as A
+    from typing import Dict as D
+    from typing import Generator, Iterator, Optional as Opt
+    from typing import List as L
+    from typing import Tuple as Tu
+    from typing import Union as U
+
+    import vfx.shapes as S
+
+    seeds = [
+        (U[D[int, int], D[int, str]], D[int, U[int, str]]),
+        (U[L[A], L[int]], L[int]),
+        (U[int, str, float], A),
+        (U[S.Derived, S.Derived2], S.Base),
+        (Generator[int, None, None], Iterator[int]),
+        (U[D[str, int], D[str, L[A]], D[str, L[int]]], D[str, U[int, L[int]]]),
+    ]
+    wraps = [lambda t: L[t], lambda t: Tu[t], lambda t: Tu[t, t], lambda t: D[str, t], lambda t: Opt[t], lambda t: Tu[t, ...]]
+    out: List[Tuple[Any, List[str]]] = []
+    for X, X2 in seeds:
+        for wi, w in enumerate(wraps):
+            if X2 is A and wi in (1, 2, 5):
+                # Tuple[Any] is neither inferable (the empty tuple is Tuple[()]) nor an intermediate result of the default
+                # chain (RemoveEmptyContainers runs first); RemoveEmptyContainers reads it as an empty container
+                continue
+            out.append((U[w(X), w(X2)], []))
+            out.append((U[w(X2), w(X)], []))
+            out.append((U[w(X), w(X2), int], []))
+            for vi, v in enumerate(wraps[:4]):
+                if X2 is A and vi in (1, 2):
+                    continue
+                out.append((U[w(v(X)), w(v(X2))], []))
+    return out
+
+
 def process_type(res: Result, ctx_tier: str, ci: int, X: Any, exprs: List[str], sing, memo, DEFAULT_REWRITER, ChainedRewriter) -> None:
     """Everything that is done with one type, in a fixed order (singles, the 49 pairs, the default chain): state carried
     between rewriter calls is part of what is explored, so --replay re-runs this whole procedure for the case's type."""
@@ -238,7 +278,7 @@ def run(ctx: Ctx) -> Result:
         synth = [(t, []) for t in G.all_types(quick)]
         if not quick:
             synth = synth[: 9000] + synth[9000::3]
-        cases = synth + inferred_types(ctx.tier) + [(t, []) for t in G.typing_named()]
+        cases = synth + inferred_types(ctx.tier) + [(t, []) for t in G.typing_named()] + collapse_family()
         memo: Dict[Tuple[str, Any], Tuple[Any, Any]] = {}
 
         for ci in range(si, len(cases), nshards):
@@ -265,7 +305,7 @@ def replay(case: Dict[str, Any], ctx: Ctx) -> List[Violation]:
     synth = [(t, []) for t in G.all_types(quick)]
     if not quick:
         synth = synth[: 9000] + synth[9000::3]
-    cases = synth + inferred_types(case["tier"]) + [(t, []) for t in G.typing_named()]
+    cases = synth + inferred_types(case["tier"]) + [(t, []) for t in G.typing_named()] + collapse_family()
     X, exprs = cases[case["type_index"]]
     res = Result()
     process_type(res, case["tier"], case["type_index"], X, exprs, singles(), {}, DEFAULT_REWRITER, ChainedRewriter)
